@@ -198,6 +198,8 @@ def verify_function(contract: Contract, specs=None, variant=None) -> FunctionRep
         params_bound = dict(st.vars)
         ex.params_bound = params_bound
         for cl in contract.requires_:
+            if any(p_ not in params_bound for p_ in cl.params):
+                continue  # mentions a region-local name: assumed when the region is entered
             st.assume(ex.eval_clause(cl, params_bound, st, None, {}))
         if vopts.get("assume") is not None:
             from .contracts import Clause
@@ -217,6 +219,21 @@ def verify_function(contract: Contract, specs=None, variant=None) -> FunctionRep
             if loopnode is None:
                 raise OutOfSubset(f"region_for_target={tgt}: no such for-loop")
             body = [loopnode]
+            if contract.opts.get("region_body_only"):
+                # one arbitrary iteration: the loop target is an unknown element; falling off the body (or `continue`) is the exit "end"
+                body = list(loopnode.body)
+                for n_ in ast.walk(loopnode.target):
+                    if isinstance(n_, ast.Name) and n_.id not in st.vars:
+                        st.vars[n_.id] = make_input(types.get(n_.id, "any"), n_.id, st, ex)
+                ex.region_body_only = True
+                params_bound = dict(st.vars)
+                ex.params_bound = params_bound
+                ex.entry_pre = st.fork()
+                ex.entry_pre.vars = dict(params_bound)
+                for cl in contract.requires_:
+                    if any(p_ not in params_bound for p_ in cl.params):
+                        continue
+                    st.assume(ex.eval_clause(cl, params_bound, st, None, {}))
             rep.assumptions.append(f"{contract.qual}: only the `for {tgt} in ...` region is verified (statement contract; the rest of the function is "
                                    f"dropped for this obligation; locals {sorted(types)} are inputs)")
         elif sal is not None:
@@ -232,6 +249,8 @@ def verify_function(contract: Contract, specs=None, variant=None) -> FunctionRep
         normal_pcs = []
         counts = {}
         for o in outs:
+            if o.sig in ("break", "continue") and getattr(ex, "region_body_only", False):
+                o.sig = "next"
             if o.sig in ("break", "continue"):
                 raise OutOfSubset("break/continue outside loop")
             ln = getattr(o.node, "lineno", None)
@@ -252,6 +271,8 @@ def verify_function(contract: Contract, specs=None, variant=None) -> FunctionRep
                 for gname_ in ex.ghost_names():
                     extra[gname_] = s2.ghost.get(gname_, Val("l", sym.EMPTY_LIST))
                 for cl in contract.ensures_:
+                    if getattr(cl, "only_exit", None) and not base.startswith(cl.only_exit):
+                        continue
                     g = ex.eval_clause(cl, _post_bound(cl, params_bound, extra), s2, ex.entry_pre, extra)
                     rep.obligations.append(Obligation(f"{site}::post:{cl.name}@{exit_id}", "post", list(s2.pc), g,
                                                       {"exit": exit_id, "clause": cl.name, "line": ln, "props": cl.props}, aux=cl.aux))
